@@ -679,7 +679,6 @@ func (m *scanModel) resetIndex(st pe.Value) pe.Value {
 	return root
 }
 
-
 // stackTypes returns the types of the events on the scanner's stack (outermost first).
 func (m *scanModel) stackTypes(st *implState) []string {
 	root := st.root.(*pe.Ptr)
